@@ -101,6 +101,26 @@ func analyseOne(payload string) (out string) {
 type c20gen struct {
 	g     *qgen
 	preds []string // the `@` predicates of the filters generated since the last reset
+	// the key chains of the query being generated (the generator's own reading of the property's cover
+	// clause): req must each be equal to or a prefix of a returned path; every returned path must be
+	// equal to or a prefix of a chain in req or opt (opt: chains the statement leaves unspecified —
+	// `$` paths inside filters and their arguments, top-level `@` paths)
+	req, opt  [][]string
+	prefix    []string // chain of the collection being filtered; nil outside filters
+	inFilter  bool
+	inPredArg bool
+}
+
+func (x *c20gen) record(root string, chain []string) {
+	c := append([]string{}, chain...)
+	switch {
+	case root == "@" && x.inFilter && !x.inPredArg:
+		x.req = append(x.req, c)
+	case root == "$" && !x.inFilter:
+		x.req = append(x.req, c)
+	default:
+		x.opt = append(x.opt, c)
+	}
 }
 
 var c20Keys = []string{"a", "b", "c", "Ab", "arr", "n", "s", "k_1"}
@@ -109,12 +129,24 @@ func (x *c20gen) key() string { return c20Keys[x.g.c.Rng.Intn(len(c20Keys))] }
 
 func (x *c20gen) path(root string, depth int) string {
 	r := x.g.c.Rng
-	p := root + "." + x.key()
+	k := x.key()
+	p := root + "." + k
+	var chain []string
+	if root == "@" && x.inFilter {
+		chain = append(chain, x.prefix...)
+	}
+	chain = append(chain, k)
 	for i, n := 0, r.Intn(4); i < n; i++ {
 		switch r.Intn(8) {
 		case 0:
 			if depth > 0 {
+				savedP, savedF, savedA := x.prefix, x.inFilter, x.inPredArg
+				x.prefix, x.inFilter, x.inPredArg = append([]string{}, chain...), true, false
+				if root == "@" && !savedF || savedA || root == "$" && savedF {
+					x.inPredArg = true // a filter inside an unspecified position stays unspecified
+				}
 				p += x.filter(depth - 1)
+				x.prefix, x.inFilter, x.inPredArg = savedP, savedF, savedA
 				continue
 			}
 		case 1:
@@ -123,9 +155,23 @@ func (x *c20gen) path(root string, depth int) string {
 				continue
 			}
 		}
-		p += "." + x.key()
+		k := x.key()
+		chain = append(chain, k)
+		p += "." + k
 	}
+	x.record(root, chain)
 	return p
+}
+
+// arg generates an argument; inside a filter it is an unspecified position
+func (x *c20gen) arg(f func() string) string {
+	saved := x.inPredArg
+	if x.inFilter {
+		x.inPredArg = true
+	}
+	s := f()
+	x.inPredArg = saved
+	return s
 }
 
 func (x *c20gen) boolPath(root string, depth int) string {
@@ -136,11 +182,11 @@ func (x *c20gen) boolPath(root string, depth int) string {
 		return p + ".IsNotNull()"
 	case 1:
 		if depth > 0 {
-			return p + ".Equal(" + x.path("$", depth-1) + ")"
+			return p + ".Equal(" + x.arg(func() string { return x.path("$", depth-1) }) + ")"
 		}
 	case 2:
 		if depth > 0 {
-			return p + ".Equal(" + x.group(depth-1) + ")"
+			return p + ".Equal(" + x.arg(func() string { return x.group(depth - 1) }) + ")"
 		}
 	}
 	return p + ".Equal(" + x.g.pick(genLits) + ")"
@@ -186,11 +232,11 @@ func (x *c20gen) call(depth int) string {
 		return "First()"
 	case 2:
 		if depth > 0 {
-			return "AnyOf(" + x.path("$", depth-1) + "," + x.g.pick(genLits) + ")"
+			return "AnyOf(" + x.arg(func() string { return x.path("$", depth-1) }) + "," + x.g.pick(genLits) + ")"
 		}
 	case 3:
 		if depth > 0 {
-			return "Sum(" + x.path("$", depth-1) + ")"
+			return "Sum(" + x.arg(func() string { return x.path("$", depth-1) }) + ")"
 		}
 	}
 	return "IsNull()"
@@ -241,7 +287,7 @@ func parseAnalysis(line string) (rf []string, ap [][]string, indep bool, ok bool
 
 func c20(c *Ctx) {
 	n := c.N(6000, 150000)
-	c.Rule = "queries from a grammar, each followed in the same process by the `@` predicates of its filters standing alone / in a top-level group / in a group argument, sometimes in the other order and with a repeat (histories of analyses); grammar: (1..4 leading keys, filters with 1..3 predicates, nested groups, path / group / nested-call arguments; every `$` path and top-level `@` path begins with a key), random, depth <=3; each analysed by the implementation and the model (exact lists compared), the implementation's lists checked for sortedness / duplicates / independence (overwriting one path, and appending to one path, leaves the others as they were), and the query evaluated on a random document and on every single-field perturbation (delete / replace / add) of each root field not listed. Non-trivial = the query has a filter, an argument path or a group; distinct by query text."
+	c.Rule = "queries from a grammar, each followed in the same process by the `@` predicates of its filters standing alone / in a top-level group / in a group argument, sometimes in the other order and with a repeat (histories of analyses); grammar: (1..4 leading keys, filters with 1..3 predicates, nested groups, path / group / nested-call arguments; every `$` path and top-level `@` path begins with a key), random, depth <=3; each analysed by the implementation and the model (exact lists compared), the implementation's AddressedPaths checked against the generator's own key chains (each chain of a `$` path, top-level argument path and filter predicate is a prefix of a returned path; each returned path is a prefix of a chain), the lists checked for sortedness / duplicates / independence (overwriting one path, and appending to one path, leaves the others as they were), and the query evaluated on a random document and on every single-field perturbation (delete / replace / add) of each root field not listed. Non-trivial = the query has a filter, an argument path or a group; distinct by query text."
 	g := &c20gen{g: &qgen{c: c}}
 	seen := map[string]bool{}
 	var queries []string
@@ -249,8 +295,9 @@ func c20(c *Ctx) {
 	// their own and as members of a top-level group — the same text in a position where it reads the
 	// document — and sometimes the query once more
 	var chains [][]int
+	covers := map[int][2][][]string{}
 	for len(queries) < n {
-		g.preds = nil
+		g.preds, g.req, g.opt, g.prefix, g.inFilter, g.inPredArg = nil, nil, nil, nil, false, false
 		q := g.query(1 + c.Rng.Intn(3))
 		if seen[q] {
 			if len(seen) > 50*n {
@@ -261,6 +308,7 @@ func c20(c *Ctx) {
 		}
 		seen[q] = true
 		chain := []int{len(queries)}
+		covers[len(queries)] = [2][][]string{g.req, g.opt}
 		queries = append(queries, q)
 		for _, p := range g.preds {
 			if c.Rng.Intn(3) == 0 {
@@ -357,8 +405,57 @@ func c20(c *Ctx) {
 			}
 			dup[k] = true
 		}
+		if cv, ok := covers[i]; ok {
+			isPrefix := func(a, b []string) bool {
+				if len(a) > len(b) {
+					return false
+				}
+				for k := range a {
+					if a[k] != b[k] {
+						return false
+					}
+				}
+				return true
+			}
+			for _, want := range cv[0] {
+				found := false
+				for _, p := range ap {
+					found = found || isPrefix(want, p)
+				}
+				if !found {
+					c.Violation("relation", fmt.Sprintf("query %q: AddressedPaths does not cover the key chain %v (returned %v)", q, want, ap), map[string]any{"kind": "analysis", "query": q, "implementation": impl[i], "chain_missing": want})
+				}
+			}
+			all := append(append([][]string{}, cv[0]...), cv[1]...)
+			for _, p := range ap {
+				// a chain of the query, or — for the positions the statement leaves unspecified — such a
+				// chain behind (a prefix of) another chain (the implementation prefixes `$` chains met
+				// inside a filter with the chain of the filtered collection)
+				found := false
+				for j := 0; j <= len(p) && !found; j++ {
+					headOK := j == 0
+					for _, ch := range all {
+						headOK = headOK || isPrefix(p[:j], ch)
+					}
+					if !headOK {
+						continue
+					}
+					tails := all
+					if j > 0 {
+						tails = cv[1]
+					}
+					for _, ch := range tails {
+						found = found || (isPrefix(p[j:], ch) && len(p[j:]) > 0)
+					}
+				}
+				if !found {
+					c.Violation("relation", fmt.Sprintf("query %q: AddressedPaths returns %v, which is no key chain of the query (chains %v, unspecified %v)", q, p, cv[0], cv[1]), map[string]any{"kind": "analysis", "query": q, "implementation": impl[i], "path_extra": p})
+				}
+			}
+			c.Count("cover-checked")
+		}
 		if !indep {
-			c.Violation("relation", fmt.Sprintf("query %q: the paths returned by AddressedPaths share storage (overwriting one changed another)", q), map[string]any{"kind": "analysis", "query": q, "implementation": impl[i]})
+			c.Violation("relation", fmt.Sprintf("query %q: the paths returned by AddressedPaths share storage (overwriting one, or appending to one, changed another)", q), map[string]any{"kind": "analysis", "query": q, "implementation": impl[i]})
 		}
 		if model != nil {
 			m := model[i]
